@@ -16,7 +16,7 @@ def queue(prop, tier, seed):
 
 def run(tier, seed):
     return b.run_property(PROP, tier, seed, ["MC_Chonky_W4c1"], ["MC_Chonky_W4c1"],
-                          "TraceChonky_C16.cfg", {"C16"}, {"panic"}, RULE, ASSUME, extra=queue)
+                          "TraceChonky_C16.cfg", {"C16"}, {"panic"}, RULE, ASSUME, extra=queue, suffix=False)   # no good-period continuation here (C06's subject)
 
 
 def replay(path, seed):
